@@ -2,6 +2,7 @@ package main
 
 import (
 	"go/token"
+	"go/types"
 	"sort"
 	"strings"
 
@@ -643,6 +644,61 @@ func (ff *FuncFacts) addVia(k ssa.Value, b *ssa.BasicBlock) {
 func (ff *FuncFacts) viaDominates(k ssa.Value, b *ssa.BasicBlock) bool {
 	for _, x := range ff.via[k] {
 		if x != b && x.Dominates(b) {
+			return true
+		}
+	}
+	return false
+}
+
+// mustPassBeforeLoops is mustPassBefore that knows one more thing: a `for … range` over a slice or array
+// literal of constant, non-zero length executes its body at least once. For such a loop the exit edge of
+// the header can only be taken after a complete iteration, so `to` is unreachable without `through` when
+// (a) it is unreachable with the header's exit edge removed and (b) every complete iteration (body entry
+// back to the header) passes `through`.
+func mustPassBeforeLoops(fn *ssa.Function, to ssa.Instruction, through func(ssa.Instruction) bool) bool {
+	if mustPassBefore(fn, to, through) {
+		return true
+	}
+	if len(fn.Blocks) == 0 || len(fn.Blocks[0].Instrs) == 0 {
+		return false
+	}
+	for _, h := range fn.Blocks {
+		if h.Comment != "rangeindex.loop" || len(h.Succs) != 2 || len(h.Instrs) == 0 {
+			continue
+		}
+		iff, ok := h.Instrs[len(h.Instrs)-1].(*ssa.If)
+		if !ok {
+			continue
+		}
+		cmp, ok := iff.Cond.(*ssa.BinOp)
+		if !ok || cmp.Op != token.LSS {
+			continue
+		}
+		n := int64(-1)
+		if k, isK := constInt(cmp.Y); isK {
+			n = k
+		} else if lc, isC := cmp.Y.(*ssa.Call); isC {
+			if bi, isB := lc.Call.Value.(*ssa.Builtin); isB && bi.Name() == "len" && len(lc.Call.Args) == 1 {
+				if sl, isS := stripConv(lc.Call.Args[0]).(*ssa.Slice); isS && sl.Low == nil && sl.High == nil {
+					if al, isA := sl.X.(*ssa.Alloc); isA {
+						if arr, isArr := derefType(al.Type()).Underlying().(*types.Array); isArr {
+							n = arr.Len()
+						}
+					}
+				}
+			}
+		}
+		if n <= 0 {
+			continue
+		}
+		body, exit := h.Succs[0], h.Succs[1]
+		a := reachAvoidingEdges(fn.Blocks[0].Instrs[0], func(i ssa.Instruction) bool { return i == to }, through,
+			func(p, q *ssa.BasicBlock) bool { return p == h && q == exit })
+		if a != nil {
+			continue
+		}
+		b := reachAvoiding(nil, body, func(i ssa.Instruction) bool { return i.Block() == h }, through)
+		if b == nil {
 			return true
 		}
 	}
